@@ -124,6 +124,11 @@ pub const IDLE: usize = 0;
 pub(super) struct Local {
     // The generation counter.
     generation: Cell<usize>,
+    // The generation counter wrapped around. The node is to be sent to cooldown once the thread
+    // is no longer using it (when the outermost LocalNode::with is left).
+    pub(super) discard: Cell<bool>,
+    // How many LocalNode::with calls are active on this thread (they nest when a writer helps).
+    pub(super) depth: Cell<usize>,
 }
 
 // Make sure the pointers have 2 empty bits. Always.
